@@ -547,7 +547,7 @@ func (t *Term) ref() string {
 	case "var":
 		return "|" + t.name + "|"
 	}
-	return fmt.Sprintf("t%d", t.id)
+	return fmt.Sprintf("$t%d", t.id) // "$": cannot collide with a harness variable name such as |t4|
 }
 
 // def returns the SMT-LIB body of a non-leaf term in terms of its children's refs.
